@@ -43,6 +43,7 @@ pub fn gen_cfg(t: &mut Tape, profile: Profile) -> RunCfg {
             props.push(Prop { id: 0x03, val: PVal::Str("text".into()) });
         }
         Some(WillCfg {
+            build_order: t.choose(3) as u8,
             topic: ["will", "w/very/long/topic/name/for/the/will/message"][t.choose(2) as usize].to_string(),
             payload: (0..[0usize, 1, 5, 40][t.choose(4) as usize]).map(|i| i as u8).collect(),
             qos: t.choose(3) as u8,
@@ -82,6 +83,7 @@ pub fn gen_cfg(t: &mut Tape, profile: Profile) -> RunCfg {
         p_stall: [0, 30, 120, 300][t.choose(4) as usize],
         p_io_err: [0, 0, 4, 20][t.choose(4) as usize],
         p_cancel: [0, 50, 200, 500][t.choose(4) as usize],
+        p_write_zero: [0, 0, 0, 0, 0, 10, 40][t.choose(7) as usize],
         zero_time_io: false,
         p_withhold_ack: [0, 50, 200, 500][t.choose(4) as usize],
         p_fail_reason: [0, 0, 50, 200][t.choose(4) as usize],
@@ -111,7 +113,23 @@ pub fn gen_cfg(t: &mut Tape, profile: Profile) -> RunCfg {
         },
         guards: t.chance(4, 5),
         payload_law: t.choose(4),
+        big: 0,
+        dense_ids: false,
     };
+    // rare large-arena runs: 16 KiB / 2 MiB remaining-length boundaries, 65535/65536-byte fields
+    let big = matches!(profile, Profile::General | Profile::Limits) && t.chance(1, 120);
+    if big {
+        c.big = if t.chance(1, 8) { 2 } else { 1 };
+        tx_len = if c.big == 2 { 4_400_000 } else { 300_000 };
+        c.p_small_limits = 0;
+        c.p_io_err = 0;
+        c.max_steps = 6 + t.choose(12);
+        c.max_conns = 1 + t.choose(3);
+        c.w.broker_pub = 1;
+        c.w.invalid = 0;
+        c.id_burn = 0;
+        id_burn = 0;
+    }
     // profile-specific biases
     match profile {
         Profile::General => {}
@@ -175,6 +193,18 @@ pub fn gen_cfg(t: &mut Tape, profile: Profile) -> RunCfg {
         }
         Profile::IdWrap => {
             id_burn = if t.chance(1, 4) { 65535 - 16 + t.choose(24) } else { 65535 - t.choose(10) };
+            if t.chance(1, 3) {
+                c.dense_ids = true;
+                c.p_small_limits = 0;
+                c.p_io_err = 0;
+                c.p_write_zero = 0;
+                if tx_len < 1024 {
+                    tx_len = 1152;
+                }
+                if rx_len < 32 {
+                    rx_len = 64;
+                }
+            }
             c.w.pub1 = 20;
             c.w.pub2 = 12;
             c.w.sub = 8;
@@ -422,7 +452,17 @@ pub fn run_connection(conn: &mut Conn<'_, '_>, steps_left: &mut u32) -> ConnEnd 
                 }
                 let spec = with(gen_disconnect);
                 let r = do_disconnect(conn, &spec);
-                was_disconnect = r != Res::Cancelled;
+                // (WriteZero from a contract-violating transport may or may not have closed the
+                // handle: judged by is_connected() below)
+                was_disconnect = r != Res::Cancelled && r != Res::WriteZero;
+                if r == Res::WriteZero {
+                    with(|w| w.disconnect_expected = None);
+                    if !conn.is_connected() {
+                        dead_handle_probe(conn);
+                        return ConnEnd::Dead;
+                    }
+                    return ConnEnd::Drop;
+                }
                 if r == Res::Cancelled && with(|w| w.cfg.guards) {
                     // guard: do not continue on a connection whose DISCONNECT was cut short
                     return ConnEnd::Drop;
@@ -511,7 +551,8 @@ pub fn benign_drain(conn: &mut Conn<'_, '_>) -> bool {
         let ep = w.epoch;
         let pending = w.reqs.iter().filter(|r| r.epoch == ep && !r.invalidated && r.accept != Accept::NotAccepted && r.qos > 0 && !matches!(r.phase, Phase::Done(_))).count();
         let owed = w.conns[cur].owed_acks.len() + w.conns[cur].carry_acks.len();
-        let inbound = w.bmsgs.iter().filter(|m| m.state != 2).count() + w.events.len();
+        // broker messages still in flight, scheduled, or already in the socket but unread
+        let inbound = w.bmsgs.iter().filter(|m| m.state != 2).count() + w.events.len() + w.conns[cur].rx_items.len();
         let p = (pending + owed + inbound) as u64;
         w.probe("drain_started");
         if p > 0 {
@@ -735,6 +776,66 @@ pub fn final_phase(session: &mut Session<'_>, mut drained: bool) {
     }
 }
 
+/// C07: fill up to 16 *consecutive* identifiers with long-lived operations (QoS 2 exchanges
+/// waiting for PUBCOMP, then SUBSCRIBE/UNSUBSCRIBE waiting for their acks), then move the counter
+/// one full cycle so that the next allocations start at the first of them.
+fn dense_identifier_prefix(conn: &mut Conn<'_, '_>) {
+    let (n2, n1, off) = with(|w| {
+        w.probe("dense_identifier_block");
+        w.hold_pubcomp = true;
+        (1 + w.tape.choose(8), w.tape.choose(8), w.tape.choose(3))
+    });
+    let opts = ExecOpts { cancellable: true, idle_cancel: true, budget_us: None, timer_is_idle: true };
+    let mut allocated = 0u32;
+    for _ in 0..n2 {
+        let spec = with(|w| {
+            let mut s = gen_publish(w, 2);
+            s.payload.truncate(4);
+            s.props.clear();
+            s.correlate = None;
+            s.payload_fails = false;
+            s
+        });
+        if do_publish(conn, &spec) != Res::OkOp {
+            break;
+        }
+        allocated += 1;
+        for _ in 0..4 {
+            if do_wait(conn, Wait::Poll, Some(opts)) == Res::Cancelled {
+                break;
+            }
+        }
+    }
+    with(|w| w.hold_acks = true);
+    for i in 0..n1 {
+        let r = if i % 2 == 0 {
+            let mut spec = with(gen_subscribe);
+            spec.filters.truncate(1);
+            spec.props.clear();
+            do_subscribe(conn, &spec)
+        } else {
+            let mut spec = with(gen_unsubscribe);
+            spec.filters.truncate(1);
+            spec.props.clear();
+            do_unsubscribe(conn, &spec)
+        };
+        if r != Res::OkOp {
+            break;
+        }
+        allocated += 1;
+    }
+    with(|w| {
+        w.hold_acks = false;
+        w.hold_pubcomp = false;
+        w.burn_done = true;
+    });
+    if conn.is_connected() && allocated > 0 {
+        // one full cycle (65535 identifiers) minus what was allocated, give or take
+        conn.verif_burn_packet_ids(65535 - allocated + off);
+        with(|w| w.probe("identifier_counter_wrapped_with_ops_in_flight"));
+    }
+}
+
 pub fn scenario_general(session: &mut Session<'_>) {
     let (max_conns, mut steps_left, burn) = with(|w| (w.cfg.max_conns, w.cfg.max_steps, w.cfg.id_burn));
     let mut drained = false;
@@ -752,6 +853,9 @@ pub fn scenario_general(session: &mut Session<'_>) {
                 if burn > 0 && !(65000..=65535).contains(&burn) && conn.connect_event() == minimq::ConnectEvent::Connected {
                     conn.verif_burn_packet_ids(burn);
                     with(|w| w.probe("identifier_counter_advanced"));
+                }
+                if ci == 0 && with(|w| w.cfg.profile == Profile::IdWrap && w.cfg.dense_ids) {
+                    dense_identifier_prefix(&mut conn);
                 }
                 let end = run_connection(&mut conn, &mut steps_left);
                 let last = matches!(end, ConnEnd::OutOfSteps) || ci + 1 == max_conns;
@@ -832,13 +936,32 @@ pub fn with_session<R>(cfg: &RunCfg, f: impl FnOnce(&mut Session<'_>) -> R) -> R
     }
     if let Some(wc) = &cfg.will {
         let mut will = minimq::Will::new(&wc.topic, &wc.payload, &will_props).expect("will config valid");
-        will = will.qos(match wc.qos {
+        let q = |v: u8| match v {
             0 => QoS::AtMostOnce,
             1 => QoS::AtLeastOnce,
             _ => QoS::ExactlyOnce,
-        });
-        if wc.retain {
-            will = will.retained();
+        };
+        // the builder calls commute: try different orders
+        match wc.build_order {
+            0 => {
+                will = will.qos(q(wc.qos));
+                if wc.retain {
+                    will = will.retained();
+                }
+            }
+            1 => {
+                if wc.retain {
+                    will = will.retained();
+                }
+                will = will.qos(q(wc.qos));
+            }
+            _ => {
+                will = will.qos(q((wc.qos + 1) % 3));
+                if wc.retain {
+                    will = will.retained();
+                }
+                will = will.qos(q(wc.qos));
+            }
         }
         b = b.will(will).expect("will once");
     }
